@@ -3,11 +3,11 @@ package main
 // C10 — WriteTo emits one complete frame and reports its size truthfully.
 
 import (
-	"go/constant"
-	"os"
 	"fmt"
+	"go/constant"
 	"go/token"
 	"go/types"
+	"os"
 	"sort"
 	"strings"
 
@@ -31,6 +31,8 @@ func init() {
 		{Name: "two-path-helper-forgets-a-one-byte-payload", Rule: "R10.7", Where: "Publish", Edits: []Edit{{"publish.go", "func (p *Publish) WriteTo(w io.Writer) (int64, error) {\n\tb := make([]byte, p.fill(_LEN, 0))\n\tp.fill(b, 0)\n\tn, err := w.Write(b)\n\treturn int64(n), err\n}\n\nfunc (p *Publish) width() int {\n\treturn p.fill(_LEN, 0)\n}\n\nfunc (p *Publish) fill(b []byte, i int) int {\n\tremainingLen := vbint(p.variableHeader(_LEN, 0))\n\n\tif len(p.payload) > 0 {\n\t\tremainingLen += vbint(p.payload.fill(_LEN, 0))\n\t}\n\n\ti += p.fixed.fill(b, i)      // firstByte header\n\ti += remainingLen.fill(b, i) // remaining length\n\ti += p.variableHeader(b, i)  // variable header\n\tif len(p.payload) > 0 {\n\t\ti += p.payload.fill(b, i) // payload\n\t}\n\n\treturn i\n}\nfunc (p *Publish) variableHeader(b []byte, i int) int {\n\tn := i\n\n\ti += p.topicName.fill(b, i)\n\tif v := p.QoS(); v == 1 || v == 2 {\n\t\ti += p.packetID.fill(b, i)\n\t}\n\ti += vbint(p.properties(_LEN, 0)).fill(b, i) // Properties len\n\ti += p.properties(b, i)                      // Properties\n\n\treturn i - n\n}\n\n", "func (p *Publish) WriteTo(w io.Writer) (int64, error) {\n\tb := make([]byte, p.width())\n\tp.fill(b, 0)\n\tn, err := w.Write(b)\n\treturn int64(n), err\n}\n\nfunc (p *Publish) width() int {\n\treturn p.fill(_LEN, 0)\n}\n\n// remainingLen returns the number of bytes following the fixed\n// header, i.e. the variable header and the payload.\nfunc (p *Publish) remainingLen() vbint {\n\tn := vbint(p.variableHeader(_LEN, 0))\n\tif p.hasPayload() && len(p.payload) > 1 {\n\t\tn += vbint(p.payload.width())\n\t}\n\treturn n\n}\n\nfunc (p *Publish) hasPayload() bool { return len(p.payload) > 0 }\n\nfunc (p *Publish) fill(b []byte, i int) int {\n\tremainingLen := p.remainingLen()\n\n\ti += p.fixed.fill(b, i)      // firstByte header\n\ti += remainingLen.fill(b, i) // remaining length\n\ti += p.variableHeader(b, i)  // variable header\n\tif p.hasPayload() {\n\t\ti += p.payload.fill(b, i) // payload\n\t}\n\n\treturn i\n}\n\nfunc (p *Publish) variableHeader(b []byte, i int) int {\n\tn := i\n\tpropl := vbint(p.properties(_LEN, 0))\n\n\ti += p.topicName.fill(b, i)\n\tswitch p.QoS() {\n\tcase 1, 2:\n\t\ti += p.packetID.fill(b, i)\n\t}\n\ti += propl.fill(b, i)   // Properties len\n\ti += p.properties(b, i) // Properties\n\n\treturn i - n\n}\n\n"}}},
 		{Name: "string-size-by-concatenation-is-not-the-dry-run", Rule: "R10.4", Where: "(*SubAck).String", Edits: []Edit{{"suback.go", ")\n\n// NewSubAck returns a suback packet without reason codes.\nfunc NewSubAck() *SubAck {\n\treturn &SubAck{fixed: bits(SUBACK)}\n}\n\ntype SubAck struct {\n\tfixed    bits\n\tpacketID wuint16\n\tUserProperties\n\n\treasonString wstring\n\treasonCodes  []uint8\n}\n\nfunc (p *SubAck) String() string {\n\treturn fmt.Sprintf(\"%s p%v %v bytes\",\n\t\tfirstByte(p.fixed).String(),\n\t\tp.packetID,\n\t\tp.width(),\n\t)", "\t\"strconv\"\n)\n\n// NewSubAck returns a suback packet without reason codes.\nfunc NewSubAck() *SubAck {\n\treturn &SubAck{fixed: bits(SUBACK)}\n}\n\ntype SubAck struct {\n\tfixed    bits\n\tpacketID wuint16\n\tUserProperties\n\n\treasonString wstring\n\treasonCodes  []uint8\n}\n\nfunc (p *SubAck) String() string {\n\treturn firstByte(p.fixed).String() + \" p\" + strconv.Itoa(int(p.packetID)) +\n\t\t\" \" + strconv.Itoa(2+p.variableHeader(_LEN, 0)) + \" bytes\""}}},
 		{Name: "encoder-takes-another-path-at-offset-0", Rule: "R10.3", Where: "properties", Edits: []Edit{{"userprop.go", "func (p *UserProperties) properties(b []byte, i int) int {", "func (p *UserProperties) properties(b []byte, i int) int {\n\tif i == 0 {\n\t\t// only the length is wanted: one identifier byte and the\n\t\t// key value pair for each property\n\t\tvar n int\n\t\tfor _, v := range *p {\n\t\t\tn += UserProperty.width() + v.width()\n\t\t}\n\t\treturn n\n\t}"}}},
+		{Name: "connect-size-by-parts-with-the-will", Silent: true, Edits: []Edit{{"connect.go", "\tb := make([]byte, p.fill(_LEN, 0))\n\tp.fill(b, 0)\n\n\tn, err := w.Write(b)\n\treturn int64(n), err\n}\n\nfunc (p *Connect) fill(", "\tb := make([]byte, p.width())\n\tp.fill(b, 0)\n\n\tn, err := w.Write(b)\n\treturn int64(n), err\n}\n\n// width sums up the parts instead of running the encoder an extra time\nfunc (p *Connect) width() int {\n\trem := p.variableHeader(_LEN, 0) + p.payloadWidth()\n\treturn p.fixed.width() + vbint(rem).width() + rem\n}\n\nfunc (p *Connect) payloadWidth() int {\n\tn := p.clientID.width()\n\tif p.flags.Has(WillFlag) {\n\t\tw := p.willDelayInterval.fillProp(_LEN, 0, WillDelayInterval)\n\t\tw += p.will.payloadFormat.fillProp(_LEN, 0, PayloadFormatIndicator)\n\t\tw += p.will.messageExpiryInterval.fillProp(_LEN, 0, MessageExpiryInterval)\n\t\tw += p.will.contentType.fillProp(_LEN, 0, ContentType)\n\t\tw += p.will.responseTopic.fillProp(_LEN, 0, ResponseTopic)\n\t\tw += p.will.correlationData.fillProp(_LEN, 0, CorrelationData)\n\t\tw += p.will.UserProperties.properties(_LEN, 0)\n\t\tn += willLenWidth(w) + w + p.will.topicName.width() + p.willPayload.width()\n\t}\n\tif p.flags.Has(UsernameFlag) {\n\t\tn += p.username.width()\n\t}\n\tif p.flags.Has(PasswordFlag) {\n\t\tn += p.password.width()\n\t}\n\treturn n\n}\n\nfunc willLenWidth(n int) int {\n\tswitch {\n\tcase n < 128:\n\t\treturn 1\n\tcase n < 16384:\n\t\treturn 2\n\tcase n < 2097152:\n\t\treturn 3\n\t}\n\treturn 4\n}\n\nfunc (p *Connect) fill("}}},
+		{Name: "adv4-D-will-property-length-threshold-mistyped", Rule: "R10.1", Where: "(*Connect).WriteTo", Edits: []Edit{{"connect.go", "\tb := make([]byte, p.fill(_LEN, 0))\n\tp.fill(b, 0)\n\n\tn, err := w.Write(b)\n\treturn int64(n), err\n}\n\nfunc (p *Connect) fill(", "\tb := make([]byte, p.width())\n\tp.fill(b, 0)\n\n\tn, err := w.Write(b)\n\treturn int64(n), err\n}\n\n// width sums up the parts instead of running the encoder an extra time\nfunc (p *Connect) width() int {\n\trem := p.variableHeader(_LEN, 0) + p.payloadWidth()\n\treturn p.fixed.width() + vbint(rem).width() + rem\n}\n\nfunc (p *Connect) payloadWidth() int {\n\tn := p.clientID.width()\n\tif p.flags.Has(WillFlag) {\n\t\tw := p.willDelayInterval.fillProp(_LEN, 0, WillDelayInterval)\n\t\tw += p.will.payloadFormat.fillProp(_LEN, 0, PayloadFormatIndicator)\n\t\tw += p.will.messageExpiryInterval.fillProp(_LEN, 0, MessageExpiryInterval)\n\t\tw += p.will.contentType.fillProp(_LEN, 0, ContentType)\n\t\tw += p.will.responseTopic.fillProp(_LEN, 0, ResponseTopic)\n\t\tw += p.will.correlationData.fillProp(_LEN, 0, CorrelationData)\n\t\tw += p.will.UserProperties.properties(_LEN, 0)\n\t\tn += willLenWidth(w) + w + p.will.topicName.width() + p.willPayload.width()\n\t}\n\tif p.flags.Has(UsernameFlag) {\n\t\tn += p.username.width()\n\t}\n\tif p.flags.Has(PasswordFlag) {\n\t\tn += p.password.width()\n\t}\n\treturn n\n}\n\nfunc willLenWidth(n int) int {\n\tswitch {\n\tcase n < 128:\n\t\treturn 1\n\tcase n < 16834:\n\t\treturn 2\n\tcase n < 2097152:\n\t\treturn 3\n\t}\n\treturn 4\n}\n\nfunc (p *Connect) fill("}}},
 		{Name: "size-method-with-a-mistyped-threshold", Rule: "R10.1", Where: "(*Publish).WriteTo", Edits: []Edit{{"publish.go", "\tb := make([]byte, p.fill(_LEN, 0))\n\tp.fill(b, 0)\n\tn, err := w.Write(b)\n\treturn int64(n), err\n}\n\nfunc (p *Publish) width() int {\n\treturn p.fill(_LEN, 0)", "\tb := make([]byte, p.width())\n\tp.fill(b, 0)\n\tn, err := w.Write(b)\n\treturn int64(n), err\n}\n\n// width returns the size of the encoded packet. It is used by both\n// String and WriteTo, so the size is summed up from the parts\n// instead of running the entire encoder an extra time.\nfunc (p *Publish) width() int {\n\trem := p.variableHeader(_LEN, 0) + p.payload.width()\n\treturn p.fixed.width() + lenWidth(rem) + rem\n}\n\n// lenWidth returns the number of bytes a remaining length of n\n// occupies, see vbint.fill\nfunc lenWidth(n int) int {\n\tswitch {\n\tcase n < 128:\n\t\treturn 1\n\tcase n < 16384:\n\t\treturn 2\n\tcase n < 2097512:\n\t\treturn 3\n\t}\n\treturn 4"}}},
 		{Name: "two-path-remaining-length-off-at-128-bytes-of-properties", Rule: "R10.7", Where: "ConnAck", Edits: []Edit{{"connack.go", "\ti += p.fixed.fill(b, i)                          // firstByte header\n\ti += vbint(p.variableHeader(_LEN, 0)).fill(b, i) // remaining length\n\ti += p.variableHeader(b, i)                      // variable header\n\treturn i", "\ti += p.fixed.fill(b, i)          // firstByte header\n\ti += p.remainingLen().fill(b, i) // remaining length\n\ti += p.variableHeader(b, i)      // variable header\n\treturn i\n}\n\n// remainingLen returns the size of the variable header. The encoder\n// is not used for this as it would calculate the properties twice.\nfunc (p *ConnAck) remainingLen() vbint {\n\tpropl := p.properties(_LEN, 0)\n\t// acknowledge flags, reason code and one byte property length\n\tn := 3 + propl\n\tif propl > 128 {\n\t\t// property length needs more than one byte\n\t\tn += vbint(propl).width() - 1\n\t}\n\treturn vbint(n)"}}},
 		{Name: "buffer-sized-by-other-call", Rule: "R10.1", Where: "(*ConnAck).WriteTo", Edits: []Edit{{"connack.go", "\tb := make([]byte, p.fill(_LEN, 0))\n\tp.fill(b, 0)\n\tn, err := w.Write(b)", "\tb := make([]byte, p.variableHeader(_LEN, 0)+2)\n\tp.fill(b, 0)\n\tn, err := w.Write(b)"}}},
@@ -1772,6 +1774,11 @@ func (p *Prog) c10State(tn string, spec stateSpec) (*packetState, string) {
 	if spec.will == 3 || spec.will == 1 && spec.bias > 0 {
 		wp, _ = p.willFor(spec)
 	}
+	if spec.will == 1 && spec.willStretch > 0 {
+		p.cache["stretch"] = spec.willStretch
+		wp, _ = p.willState()
+		delete(p.cache, "stretch")
+	}
 	return p.buildStateSpec(tn, spec, nil, wp)
 }
 
@@ -1986,14 +1993,22 @@ func (p *Prog) targetedStates(tn string, fill *ssa.Function, extra ...*ssa.Funct
 		if which == 0 {
 			return em[1].Val.i, true
 		}
+		seen := 0
 		for _, e := range em[2:] {
 			if e.Kind == "vbi" && e.Src == "" && e.Val.k == 'i' && e.Op == "fill" {
-				return e.Val.i, true
+				seen++
+				if seen == which {
+					return e.Val.i, true
+				}
 			}
 		}
 		return 0, false
 	}
-	for _, baseName := range []string{"all", "none"} {
+	whats := []string{"remaining length", "property length"}
+	if p.Method(tn, "SetWill") != nil {
+		whats = append(whats, "property length of the will message")
+	}
+	for _, baseName := range []string{"all", "none", "all+will"} {
 		var base *stateSpec
 		for _, sp := range p.stateSpecs(tn) {
 			if sp.name == baseName {
@@ -2011,17 +2026,24 @@ func (p *Prog) targetedStates(tn string, fill *ssa.Function, extra ...*ssa.Funct
 			}
 			return inner(n)
 		}
-		for which, what := range []string{"remaining length", "property length"} {
+		for which, what := range whats {
 			for _, t := range targets {
-				if baseName == "none" && (which == 1 || t > 200) {
+				if baseName == "none" && (which >= 1 || t > 200) {
 					continue // the bare packet: only the first growth of the remaining-length field
+				}
+				if (which == 2) != (baseName == "all+will") || which == 2 && t > 20000 {
+					continue // with a will message: the will's own property length only
 				}
 				stretch := int64(0)
 				var st *packetState
 				hit := false
 				for iter := 0; iter < 5; iter++ {
 					sp := *base
-					sp.stretch = stretch
+					if which == 2 {
+						sp.willStretch = stretch
+					} else {
+						sp.stretch = stretch
+					}
 					s2, _ := p.c10State(tn, sp)
 					if s2 == nil {
 						break
